@@ -703,8 +703,8 @@ mod api {
     /// C17: smart quotes on vs off, both methods
     pub(crate) fn smart_quote(bound: usize) -> Value {
         let mut o = Out::new("smart_quote", bound, "words (incl. emoji names) x up to two leading / trailing punctuation characters from {\",',(,.} in both methods; list(on) vs list(off)");
-        let punct = ["", "\"", "'", "(", "\"'", "(\""];
-        let close = ["", "\"", "'", ")", "'\"", ".\""];
+        let punct: Vec<&str> = if bound >= 2 { vec!["", "\"", "'", "(", "\"'", "(\""] } else { vec!["", "\"", "('"] };
+        let close: Vec<&str> = if bound >= 2 { vec!["", "\"", "'", ")", "'\"", ".\""] } else { vec!["", "\"", "'."] };
         let jobs: Vec<(bool, Vec<&str>)> = vec![(true, vec!["amar", "bow", "e", "smile"]), (false, vec!["tp", "api", "hasi", "t"])];
         for (phonetic, words) in jobs {
             for eng in [false, true] {
@@ -923,7 +923,8 @@ mod rules {
         let mut cases = 0u64;
         for setting in 0..8u8 {
             let (vowel, chandra, trad) = (setting & 1 != 0, setting & 2 != 0, setting & 4 != 0);
-            let cfgv = fixed_cfg(json!({"fixed_vowel": vowel, "fixed_chandra": chandra, "fixed_kar": trad}));
+            let mut cfgv = fixed_cfg(json!({"fixed_vowel": vowel, "fixed_chandra": chandra, "fixed_kar": trad}));
+            cfgv.as_object_mut().unwrap().remove("database_dir"); // suggestions are off: no dictionary needed
             cases += for_all_strings(&keys, bound, shard, nshards, |h| {
                 let mut s = Sess::new(cfgv.clone());
                 let mut model = String::new();
@@ -953,8 +954,10 @@ mod rules {
             let (vowel, chandra, trad) = (setting & 1 != 0, setting & 2 != 0, setting & 4 != 0);
             for c1 in cons { for c2 in cons { for (s1, _) in signs { for chandra_end in [false, true] {
                 cases += 1;
-                let on = fixed_cfg(json!({"fixed_vowel": vowel, "fixed_chandra": chandra, "fixed_kar": trad, "fixed_kar_order": true}));
-                let off = fixed_cfg(json!({"fixed_vowel": vowel, "fixed_chandra": chandra, "fixed_kar": trad}));
+                let mut on = fixed_cfg(json!({"fixed_vowel": vowel, "fixed_chandra": chandra, "fixed_kar": trad, "fixed_kar_order": true}));
+                let mut off = fixed_cfg(json!({"fixed_vowel": vowel, "fixed_chandra": chandra, "fixed_kar": trad}));
+                on.as_object_mut().unwrap().remove("database_dir");
+                off.as_object_mut().unwrap().remove("database_dir");
                 // syllable 1: plain consonant cluster c1 with sign া ; syllable 2: cluster c2 with left-standing / two-part sign
                 let lead: String = s1.chars().take(1).collect();
                 let tail: String = s1.chars().skip(1).collect();
